@@ -49,13 +49,69 @@ def universe_member(rng):
     return {"start": MON, "dur": [1, "w"], "G": 3600, "resources": res, "tasks": tasks}
 
 
+def enumerate_universe():
+    """EVERY project of the bounded universe U (thorough tier): one-week project at 1 h resolution;
+      resources: (A) one plain, (B) one with a leave Mon 10:00-13:00, (C) one with dailymax 2h, (D) two plain;
+      2 or 3 leaf tasks, effort 1h|2h, priority 100|900; in (D) each task on r0 | r1 | team r0,r1;
+      each pair j<i: no edge | depends | depends with gap 1h ((D): no edge | depends); t0 pinned to Mon 11:00 or not ((A)-(C));
+      (E) one plain resource, t0, t1 and a container box{k1}: t1 depends t0 or not, one of t0/t1/nobody depends on box,
+          k1 depends on t0 or not (cyclic combinations left out)."""
+    out = []
+    def proj(res, tasks):
+        return {"start": MON, "dur": [1, "w"], "G": 3600, "resources": res, "tasks": tasks}
+    def res_of(cfg):
+        if cfg == "A":
+            return [{"id": "r0"}]
+        if cfg == "B":
+            return [{"id": "r0", "leaves": [["annual", MON + 10 * H, MON + 13 * H]]}]
+        if cfg == "C":
+            return [{"id": "r0", "limits": {"dailymax": "2h"}}]
+        return [{"id": "r0"}, {"id": "r1"}]
+    for cfg in "ABCD":
+        allocs = [["r0"]] if cfg != "D" else [["r0"], ["r1"], ["r0", "r1"]]
+        edge_kinds = [None, "dep", "gap"] if cfg != "D" else [None, "dep"]
+        pins = [False, True] if cfg != "D" else [False]
+        for n in (2, 3):
+            pairs = [(i, j) for i in range(1, n) for j in range(i)]
+            per_task = list(itertools.product([1, 2], [100, 900], allocs))
+            for attrs in itertools.product(per_task, repeat=n):
+                for edges in itertools.product(edge_kinds, repeat=len(pairs)):
+                    for pin in pins:
+                        tasks = []
+                        for i, (eff, prio, al) in enumerate(attrs):
+                            tasks.append({"id": f"t{i}", "effort": [str(eff), "h"], "prio": prio, "alloc": list(al)})
+                        for (i, j), e in zip(pairs, edges):
+                            if e:
+                                tasks[i].setdefault("deps", []).append({"target": f"t{j}", "ref": f"t{j}", "gap": "1h" if e == "gap" else None})
+                        if pin:
+                            tasks[0]["start"] = MON + 11 * H
+                        out.append(proj(res_of(cfg), tasks))
+    for attrs in itertools.product(itertools.product([1, 2], [100, 900]), repeat=3):
+        for t1dep in (False, True):
+            for waits in (None, "t0", "t1"):
+                for kdep in (False, True):
+                    if kdep and waits == "t0":
+                        continue        # t0 -> box -> k1 -> t0
+                    t0 = {"id": "t0", "effort": [str(attrs[0][0]), "h"], "prio": attrs[0][1], "alloc": ["r0"]}
+                    t1 = {"id": "t1", "effort": [str(attrs[1][0]), "h"], "prio": attrs[1][1], "alloc": ["r0"]}
+                    k1 = {"id": "k1", "effort": [str(attrs[2][0]), "h"], "prio": attrs[2][1], "alloc": ["r0"]}
+                    if t1dep:
+                        t1["deps"] = [{"target": "t0", "ref": "t0", "gap": None}]
+                    if kdep:
+                        k1["deps"] = [{"target": "t0", "ref": "!!t0" , "gap": None}]
+                    if waits:
+                        (t0 if waits == "t0" else t1).setdefault("deps", []).append({"target": "box", "ref": "box", "gap": None})
+                    out.append(proj(res_of("A"), [t0, t1, {"id": "box", "children": [k1]}]))
+    return out
+
+
 def run(chk):
     tier = chk.tier
     chk.obligations(["Properties/C07.lean"])
     if tier == "thorough":
         chk.leanchecker(["Properties.C07", "Proofs.Order", "Proofs.Walk"])
     n = 250 if tier == "quick" else 6000
-    nu = 250 if tier == "quick" else 20000
+    nu = 250 if tier == "quick" else 3000
     k = Knobs(envelope="asap", sub_slot=0.0, p_alt=0.0, p_tz=0.0, p_eff=0.15, eff=["0.5", "2", "0.25"], p_onstart=0.15,
               p_prec=0.2, p_limits=0.3, p_tasklimits=0.1, p_team=0.2, big_effort=0.05, aligned_only=True, dur_weeks=[3, 4])
     k2 = Knobs(envelope="asap", sub_slot=0.0, p_alt=0.0, p_tz=0.0, p_eff=0.0, max_res=1, max_tasks=6, p_container=0.7, p_dep=0.7,
@@ -63,12 +119,14 @@ def run(chk):
                aligned_only=True, dur_weeks=[3, 4], p_pin=0.05)
     asts = ([gen.gen_project(chk.rng, k) for _ in range(n // 2)] + [gen.gen_project(chk.rng, k2) for _ in range(n - n // 2)]
             + [universe_member(chk.rng) for _ in range(nu)])
+    universe = enumerate_universe()
+    # quick: a sample of the enumerated universe; thorough: all of it
+    asts += universe if tier != "quick" else chk.rng.sample(universe, 150)
     base = project_stream.run_projects(chk, asts, want_oracles=())
     dis = [{"stream": "project", "text": r["text"], "ast": r["ast"], "diffs": r["diffs"][:6]} for r in base if r["diffs"] and not r["skipped"]]
     found = []
     nontriv = 0
     in_dialect = 0
-    known = 0
     seen = set()
     for r in base:
         p, obs = r["ast"], r["obs"]
@@ -85,9 +143,7 @@ def run(chk):
                if (sc["tasks"][f]["start"], sc["tasks"][f]["end"]) != ref[f]]
         if bad:
             f = bad[0][0]
-            if SC.trigger_F31(p, f) or any(SC.trigger_F31(p, g) for g, *_ in bad):
-                known += 1
-            else:
+            if True:
                 found.append((f"C07: task {f} is at {bad[0][2]}, the priority-ordered earliest-fit rule gives {bad[0][1]}",
                               {"ast": p, "text": r["text"], "reference": {k2: list(v) for k2, v in ref.items()}}))
         key = json.dumps(p, sort_keys=True)
@@ -98,13 +154,16 @@ def run(chk):
     chk.cov["evaluations"] += len(asts)
     chk.cov["distinct_nontrivial"] = nontriv
     chk.cov["in_core_dialect"] = in_dialect
-    chk.cov["known_region_hits"] = {"F31": known}
     chk.cov["rule"] = ("random core-dialect projects (aligned calendars, whole-slot efforts, DAGs, priorities, gaps, pinned starts, leaves, "
                        "limits, teams, all resolutions) plus random members of the bounded universe (<= 3 leaf tasks, efforts 1-3 slots, three "
                        "priorities, dependency subsets, gaps 0/1 slot, pinned start, 1-2 resources with leave or dailymax 2 slots, team or "
                        "single); real scheduler compared with the Lean model AND with an independent reference list scheduler written from "
                        "the rule; non-trivial = distinct in-dialect projects with >= 2 leaf tasks")
-    chk.cov["exhaustive"] = False
+    chk.cov["exhaustive"] = tier != "quick"
+    chk.cov["universe_size"] = len(universe)
+    chk.cov["rule"] += ("; thorough tier: EVERY project of the bounded universe U defined in c07.enumerate_universe (2-3 leaf tasks, "
+                        "efforts 1-2 slots, two priorities, all dependency subsets with gaps 0/1 slot, pinned start, four resource "
+                        "configurations incl. leave, dailymax and teams, and the container family E); quick tier: a sample of 150 of them")
     for f in SC.load_known("C07"):
         if f["status"] == "open":
             chk.known_finding(f["id"], f.get("line", f["what_fails"]))
